@@ -467,4 +467,103 @@ theorem keyword_iff_table (lm : Char → Bool) (c : Char) (r : List Char) (line 
         · simp
     exact this _ _ _ hm hnone
 
+/-! ### literal tokens carry a literal of their kind -/
+
+def LitOk (t : Token) : Prop :=
+  (t.tt = .NUMBER → ∃ x, t.lit = .num x) ∧ (t.tt = .STRING → ∃ s, t.lit = .str s)
+
+theorem plain_tables :
+    (∀ p ∈ Expect.singleOps, p.2 ≠ TT.NUMBER ∧ p.2 ≠ TT.STRING) ∧
+    (∀ e ∈ Expect.twoOps, (e.2.2 ≠ TT.NUMBER ∧ e.2.2 ≠ TT.STRING) ∧ ∀ p ∈ e.2.1, p.2 ≠ TT.NUMBER ∧ p.2 ≠ TT.STRING) ∧
+    (∀ p ∈ Expect.keywords, p.2 ≠ TT.NUMBER ∧ p.2 ≠ TT.STRING) := by decide
+
+theorem plainTok_litOk (tt : TT) (lexeme rest : List Char) (line : Nat) (h : tt ≠ .NUMBER ∧ tt ≠ .STRING) (t : Token)
+    (ht : (plainTok tt lexeme rest line).tok = some t) : LitOk t := by
+  simp [plainTok] at ht; subst ht; exact ⟨fun e => absurd e h.1, fun e => absurd e h.2⟩
+
+theorem scanToken_litOk (lm : Char → Bool) (c : Char) (r : List Char) (line : Nat) (st : Step) (t : Token)
+    (h : scanToken lm (c :: r) line = some st) (ht : st.tok = some t) : LitOk t := by
+  cases h1 : Expect.singleOps.lookup c with
+  | some tt =>
+    simp only [scanToken, h1] at h; cases h
+    exact plainTok_litOk _ _ _ _ (plain_tables.1 _ (lookup_mem _ _ _ h1)) t ht
+  | none =>
+    cases h2 : Expect.twoOps.lookup c with
+    | some p =>
+      obtain ⟨alts, dflt⟩ := p
+      simp only [scanToken, h1, h2] at h; cases h
+      have hf := plain_tables.2.1 _ (lookup_mem _ _ _ h2)
+      unfold scanTwo at ht
+      cases r with
+      | nil => exact plainTok_litOk _ _ _ _ hf.1 t ht
+      | cons d r' =>
+        simp only at ht
+        cases hl : alts.lookup d with
+        | none => rw [hl] at ht; exact plainTok_litOk _ _ _ _ hf.1 t ht
+        | some tt => rw [hl] at ht; exact plainTok_litOk _ _ _ _ (hf.2 _ (lookup_mem _ _ _ hl)) t ht
+    | none =>
+      by_cases h3 : c = '/'
+      · subst h3
+        simp only [scanToken, h1, h2, if_true] at h; cases h
+        unfold scanSlash at ht
+        cases r with
+        | nil => exact plainTok_litOk _ _ _ _ (by decide) t ht
+        | cons d r' =>
+          simp only at ht
+          by_cases hd1 : d = '/'
+          · simp only [hd1, if_true] at ht; cases ht
+          · simp only [hd1, if_false] at ht
+            by_cases hd2 : d = '*'
+            · simp only [hd2, if_true] at ht
+              split at ht <;> cases ht
+            · simp only [hd2, if_false] at ht
+              exact plainTok_litOk _ _ _ _ (by decide) t ht
+      · by_cases h4 : Expect.blanks.contains c = true
+        · simp only [scanToken, h1, h2, h3, h4, if_true, if_false] at h; cases h; cases ht
+        · by_cases h5 : c = '\n'
+          · subst h5; simp only [scanToken, h1, h2, h3, h4, if_true, if_false, Bool.false_eq_true] at h; cases h; cases ht
+          · by_cases h6 : c = '"'
+            · subst h6
+              simp only [scanToken, h1, h2, h3, h4, h5, if_true, if_false, Bool.false_eq_true] at h
+              obtain ⟨body, _, hlit, _, htt⟩ := string_value r line st t h ht
+              exact ⟨(fun e => by rw [htt] at e; cases e), fun _ => ⟨body, hlit⟩⟩
+            · by_cases h7 : isDigit c = true
+              · simp only [scanToken, h1, h2, h3, h4, h5, h6, h7, if_true, if_false, Bool.false_eq_true] at h; cases h
+                unfold scanNumber at ht
+                simp only at ht
+                split at ht
+                · rename_i x hx; cases ht; exact ⟨fun _ => ⟨x, rfl⟩, (fun e => by cases e)⟩
+                · cases ht
+              · by_cases h8 : isAlpha lm c = true
+                · simp only [scanToken, h1, h2, h3, h4, h5, h6, h7, h8, if_true, if_false, Bool.false_eq_true] at h; cases h
+                  unfold scanWord at ht
+                  refine plainTok_litOk _ _ _ _ ?_ t ht
+                  cases hl : Expect.keywords.lookup (c :: r.takeWhile (isAlphaNum lm)) with
+                  | none => simp
+                  | some tt => simpa using plain_tables.2.2 _ (lookup_mem _ _ _ hl)
+                · simp only [scanToken, h1, h2, h3, h4, h5, h6, h7, h8, if_true, if_false, Bool.false_eq_true] at h; cases h; cases ht
+
+/-- every token the scanner produces is well-formed for the parser: NUMBER tokens carry a number,
+    STRING tokens a string (and the closing EOF token carries nothing) -/
+theorem scan_tokens_litOk (lm : Char → Bool) (hlm : lm '\n' = false) (src : List Char) (toks : List Token) (ds : List Diag)
+    (h : scan lm src = some (toks, ds)) : ∀ t ∈ toks, LitOk t := by
+  obtain ⟨steps, hs, ht, _⟩ := scanLoop_scans lm hlm _ _ _ _ _ h
+  intro t htm
+  rw [ht] at htm
+  rcases List.mem_append.mp htm with hm | hm
+  · simp only [List.mem_filterMap] at hm
+    obtain ⟨st, hst, htk⟩ := hm
+    -- find the scanning step that produced it
+    have : ∀ (src : List Char) (line : Nat) (steps : List Step), Scans lm src line steps → ∀ st ∈ steps, ∀ t, st.tok = some t → LitOk t := by
+      intro src line steps hsc
+      induction hsc with
+      | nil => intro st h; cases h
+      | @cons c r line st0 steps hst0 _ ih =>
+        intro st hm t ht
+        rcases List.mem_cons.mp hm with rfl | hm
+        · exact scanToken_litOk lm c r line st t hst0 ht
+        · exact ih st hm t ht
+    exact this _ _ _ hs st hst t htk
+  · simp at hm; subst hm; exact ⟨(fun e => by cases e), (fun e => by cases e)⟩
+
 end Borno.Props.C09
